@@ -241,6 +241,11 @@ func checkC09(p *Prog, r *Report) {
 				}
 				dc := decodeCond(ifi.Cond)
 				fv, _ := loadedField(dc.X)
+				if fv != fdir {
+					/* The field's value handed down by the one caller of
+					this (private) function. */
+					fv, _ = loadedField(stripConv(p.resolveUp(dc.X), false))
+				}
 				if fv != fdir || nil == dc.Y {
 					continue
 				}
